@@ -5,20 +5,6 @@ From Clikit Require Import Base.Prelude Base.Res Base.Term Model.Conv Model.Mark
   Proofs.TermLemmas Proofs.MarkupLemmas Proofs.SectionLemmas Proofs.ProgressLemmas.
 
 (* ---------- 1. every frame a call writes is the frame of the state the call leaves ---------- *)
-Definition start_state (p : pbar) (now : Z) (mx : option Z) : pbar :=
-  let p1 := set_start (set_pct (with_progress p (p_max p) 0) 0 1) now in
-  match mx with Some m => set_fmt (set_max_steps p1 m) None (p_flc p1) | None => p1 end.
-(* the state whose frame a call displays, when it displays one *)
-Definition draw_state (p : pbar) (now : Z) (o : pop) : option pbar :=
-  match o with
-  | OStart mx => Some (start_state p now mx)
-  | OAdvance k => Some (sp_state p (p_step p + k))
-  | OSet k => Some (sp_state p k)
-  | ODisplay => Some p
-  | OFinish => Some (sp_state (finish_state p) (p_max (finish_state p)))
-  | _ => None
-  end.
-
 (* the fields of the output side that a change of the progress leaves alone *)
 Definition same_out (p q : pbar) : Prop :=
   p_ansi q = p_ansi p /\ p_quiet q = p_quiet p /\ p_section q = p_section p /\ p_f q = p_f p /\ p_flc q = p_flc p /\
@@ -195,7 +181,6 @@ Qed.
 Lemma okl_nil : okl [].
 Proof. split; [apply okline_nil|apply closed_nil]. Qed.
 
-Definition lits (f : format) : str := flat_map (fun x => match x with PLit s => s | _ => [] end) f.
 (* a one-line format: the built-in ones are; a custom one when its text has no line break *)
 Definition one_line (p : pbar) : Prop :=
   p_flc p = 0 /\ match p_custom p with Some f => count_nl (lits f) = 0 | None => True end.
@@ -590,31 +575,16 @@ Qed.
 End Sec.
 
 (* ---------- 5. the premises about the frames as checks that can be run ---------- *)
-Definition closedb (l : str) : bool := match l_cand (fold_left lex_step l lex_init) with CText => true | _ => false end.
 Lemma closedb_ok l : closedb l = true -> closed l.
 Proof. unfold closedb, closed. destruct (l_cand _); intros H; try discriminate; reflexivity. Qed.
-Definition oklb (sty : styles) (l : str) : bool := good_lineb sty l && closedb l.
 Lemma oklb_ok sty l : oklb sty l = true -> okl sty l.
 Proof. unfold oklb. intros H. apply Bool.andb_true_iff in H as [H1 H2]. split; [apply good_line_ok, H1|apply closedb_ok, H2]. Qed.
 
-Definition frame_fitsb (w : nat) (sty : styles) (q : pbar) (now : Z) : bool :=
-  match frame_of (with_fmt q) now with
-  | Ok (_, fr) => oklb sty fr && Nat.leb (length (vis sty fr)) w
-  | Err _ => true
-  end.
 Lemma frame_fitsb_ok w sty q now : frame_fitsb w sty q now = true -> frame_fits w sty q now.
 Proof.
   unfold frame_fitsb, frame_fits. intros H fm fr E. rewrite E in H. apply Bool.andb_true_iff in H as [H1 H2].
   split; [apply oklb_ok, H1|apply Nat.leb_le, H2].
 Qed.
-Definition step_fitsb (w : nat) (sty : styles) (p : pbar) (now : Z) (o : pop) : bool :=
-  match draw_state p now o with Some q => frame_fitsb w sty q now | None => true end.
-Fixpoint run_fitsb (w : nat) (sty : styles) (p : pbar) (now : Z) (ops : list (Z * pop)) : bool :=
-  match ops with
-  | [] => true
-  | (dt, o) :: r => step_fitsb w sty p (now + dt) o &&
-                    match pstep p (now + dt) o with Ok (p', _) => run_fitsb w sty p' (now + dt) r | Err _ => true end
-  end.
 Lemma run_fitsb_ok w sty : forall ops p now, run_fitsb w sty p now ops = true -> run_fits w sty p now ops.
 Proof.
   induction ops as [|[dt o] r IH]; intros p now H; cbn [run_fitsb run_fits] in *; [exact I|].
@@ -623,19 +593,11 @@ Proof.
   - destruct (pstep p (now + dt) o) as [[p' es]|]; [apply IH, H2|exact I].
 Qed.
 
-Definition frame_lines_okb (sty : styles) (q : pbar) (now : Z) : bool :=
-  match frame_of (with_fmt q) now with Ok (_, fr) => forallb (oklb sty) (lines_of fr) | Err _ => true end.
 Lemma frame_lines_okb_ok sty q now : frame_lines_okb sty q now = true -> frame_lines_ok sty q now.
 Proof.
   unfold frame_lines_okb, frame_lines_ok. intros H fm fr E. rewrite E in H. rewrite forallb_forall in H.
   apply Forall_forall. intros l Hl. apply oklb_ok, H, Hl.
 Qed.
-Fixpoint sec_run_okb (sty : styles) (p : pbar) (now : Z) (ops : list (Z * pop)) : bool :=
-  match ops with
-  | [] => true
-  | (dt, o) :: r => match draw_state p (now + dt) o with Some q => frame_lines_okb sty q (now + dt) | None => true end &&
-                    match pstep p (now + dt) o with Ok (p', _) => sec_run_okb sty p' (now + dt) r | Err _ => true end
-  end.
 Lemma sec_run_okb_ok sty : forall ops p now, sec_run_okb sty p now ops = true -> sec_run_ok sty p now ops.
 Proof.
   induction ops as [|[dt o] r IH]; intros p now H; cbn [sec_run_okb sec_run_ok] in *; [exact I|].
